@@ -369,6 +369,9 @@ class Package:
             "islice": itertools.islice, "zip_longest": itertools.zip_longest, "deque": m_deque, "Counter": m_counter, "OrderedDict": dict,
         })
         self._bind_imports(rel, env)
+        from .models import MCNF, MIDPool, MSolver
+
+        env.setdefault("__imports__", {"pysat.formula.CNF": MCNF, "pysat.formula.IDPool": MIDPool, "pysat.solvers.Cadical153": MSolver, "pysat.solvers.Cadical": MSolver})
         bi = BlockInterp(env, max_steps=self.max_steps)
         bi.me.env = env  # share the dict: closures see functions defined later in the module
         tree = self.repo.tree[rel]
